@@ -1667,6 +1667,18 @@ class DynDiGraph(nx.DiGraph):
 
         return dist
 
+    def clear(self):
+        """Remove all nodes and interactions, together with the interaction stream and the snapshots."""
+        nx.DiGraph.clear(self)
+        self.time_to_edge.clear()
+        self.snapshots.clear()
+
+    def clear_edges(self):
+        """Remove all interactions (nodes are kept), together with the interaction stream and the snapshots."""
+        nx.DiGraph.clear_edges(self)
+        self.time_to_edge.clear()
+        self.snapshots.clear()
+
     @not_implemented()
     def remove_edge(self, u, v):
         pass
